@@ -316,9 +316,35 @@ def alternatives(pat: re.Pattern, buf: SSeq, s: int, endpos=None, max_alts=MAX_A
         if op in (C.ASSERT, C.ASSERT_NOT):
             direction, sub = av
             sub = list(sub)
-            # only single-character assertions
+            if direction > 0 and (len(sub) != 1 or sub[0][0] not in (C.LITERAL, C.NOT_LITERAL, C.IN, C.ANY)):
+                # general lookahead: does the sub-pattern match at pos?  (captures inside a
+                # lookahead are not kept)
+                if execute:
+                    class _LookFound(Exception):
+                        pass
+
+                    def hit(p2, c2, g2):
+                        raise _LookFound()
+
+                    try:
+                        m_seq(sub, 0, pos, cond, groups, hit)
+                        matched = False
+                    except _LookFound:
+                        matched = True
+                    if matched == (op is C.ASSERT):
+                        return k(pos, cond, groups)
+                    return None
+                alts = []
+                m_seq(sub, 0, pos, [], {}, lambda p2, c2, g2: alts.append(z3.And(*c2) if len(c2) > 1 else (c2[0] if c2 else z3.BoolVal(True))))
+                present = z3.Or(*alts) if alts else z3.BoolVal(False)
+                cnd = z3.simplify(present if op is C.ASSERT else z3.Not(present))
+                if z3.is_false(cnd):
+                    return None
+                c2 = also(cond, cnd)
+                return k(pos, c2, groups) if c2 is not None else None
+            # single-character assertions
             if len(sub) != 1 or sub[0][0] not in (C.LITERAL, C.NOT_LITERAL, C.IN, C.ANY):
-                raise Unsupported("complex lookaround")
+                raise Unsupported("complex lookbehind")
             p = pos - 1 if direction < 0 else pos
             sop, sav = sub[0]
             if p < 0 or p >= cap:
